@@ -195,6 +195,20 @@ int ops_enumerate(hwloc_topology_t t, const struct opscope *sc, struct op **outp
       if (!(a & b) && __builtin_popcountll(a) >= 2 && __builtin_popcountll(b) >= 2) { push_unique_mask(gs, &ngs, 700, (a & -a) | (b & -b)); goto conflicts_done; }
     }
   conflicts_done:
+    /* conflicting sets that adopt children before the conflict is met: two whole children of one parent (adjacent or not)
+     * plus one PU of a later multi-PU child, and the mirror image (one PU of an earlier child plus two later children):
+     * the rejected insertion has to put the adopted children back where they were */
+    for (unsigned i = 0; i < nobjs; i++) {
+      hwloc_obj_t ch[8]; int nch = 0;
+      for (hwloc_obj_t c = objs[i]->first_child; c && nch < 8; c = c->next_sibling) ch[nch++] = c;
+      int added = 0;
+      for (int a = 0; a < nch && added < 6; a++) for (int b = a + 1; b < nch && added < 6; b++) for (int m = 0; m < nch && added < 6; m++) {
+        if (m == a || m == b || (m > a && m < b)) continue;
+        uint64_t ma = ops_bitmap_to_mask(ch[a]->cpuset), mb = ops_bitmap_to_mask(ch[b]->cpuset), mm = ops_bitmap_to_mask(ch[m]->cpuset);
+        if (__builtin_popcountll(mm) < 2 || !ma || !mb) continue;
+        { int before = ngs; push_unique_mask(gs, &ngs, 700, ma | mb | (mm & -mm)); if (ngs > before) added++; }
+      }
+    }
     for (int i = 0; i < ngs; i++) for (int dm = 0; dm < 2; dm++) for (int kd = 0; kd < (sc->rich ? 3 : 2); kd++) {
       if (sc->lean && dm == 0 && kd == 1) continue;
       memset(&o, 0, sizeof(o)); o.kind = OP_GROUP; o.c = 1; o.set = gs[i]; o.b = dm; o.a = kd == 0 ? 0 : kd == 1 ? 7 : -1 /* 0xffffffff */; o.d = kd; push(&L, &o);
